@@ -556,4 +556,133 @@ theorem literal_rt (flag : Bool) {t r : List Char} (h : literalOk t = true) :
   · exact literal_rt_single hl
   · exact literal_rt_double hl
 
+/-! ### numbers -/
+
+theorem digitChar_spec : ∀ m, m < 10 → isDecDigit (Char.ofNat (48 + m)) = true ∧ digitVal (Char.ofNat (48 + m)) = m := by
+  decide
+
+theorem digitChar_digit (n : Nat) : isDecDigit (digitChar n) = true :=
+  (digitChar_spec (n % 10) (Nat.mod_lt _ (by decide))).1
+theorem digitChar_val (n : Nat) : digitVal (digitChar n) = n % 10 :=
+  (digitChar_spec (n % 10) (Nat.mod_lt _ (by decide))).2
+
+theorem decDigitsGo_acc : ∀ (n f : Nat), n < f → ∀ acc, decDigitsGo f n acc = decDigitsGo (n + 1) n [] ++ acc := by
+  intro n
+  induction n using Nat.strongRecOn with
+  | _ n ih =>
+    intro f hf acc
+    cases f with
+    | zero => omega
+    | succ f =>
+      by_cases h10 : n < 10
+      · simp [decDigitsGo, h10]
+      · have hlt : n / 10 < n := Nat.div_lt_self (by omega) (by decide)
+        have e1 := ih (n / 10) hlt f (by omega) (digitChar (n % 10) :: acc)
+        have e2 := ih (n / 10) hlt n hlt [digitChar (n % 10)]
+        simp only [decDigitsGo, h10, if_false]
+        rw [e1, e2]; simp
+
+theorem decDigits_small {n : Nat} (h : n < 10) : decDigits n = [digitChar n] := by
+  simp [decDigits, decDigitsGo, h]
+
+theorem decDigits_step {n : Nat} (h : 10 ≤ n) : decDigits n = decDigits (n / 10) ++ [digitChar (n % 10)] := by
+  have hlt : n / 10 < n := Nat.div_lt_self (by omega) (by decide)
+  have h10 : ¬ n < 10 := by omega
+  simp only [decDigits, decDigitsGo, h10, if_false]
+  exact decDigitsGo_acc (n / 10) n hlt _
+
+theorem decVal_snoc (a : List Char) (c : Char) : decVal (a ++ [c]) = decVal a * 10 + digitVal c := by
+  simp [decVal, List.foldl_append]
+
+theorem decDigits_spec (n : Nat) : decDigits n ≠ [] ∧ (∀ c ∈ decDigits n, isDecDigit c = true) ∧ decVal (decDigits n) = n := by
+  induction n using Nat.strongRecOn with
+  | _ n ih =>
+    by_cases h : n < 10
+    · rw [decDigits_small h]
+      refine ⟨by simp, by intro c hc; simp at hc; subst hc; exact digitChar_digit n, ?_⟩
+      simp [decVal, digitChar_val, Nat.mod_eq_of_lt h]
+    · have hlt : n / 10 < n := Nat.div_lt_self (by omega) (by decide)
+      obtain ⟨h1, h2, h3⟩ := ih (n / 10) hlt
+      rw [decDigits_step (by omega)]
+      refine ⟨by simp, ?_, ?_⟩
+      · intro c hc
+        rcases List.mem_append.mp hc with hc | hc
+        · exact h2 c hc
+        · simp at hc; subst hc; exact digitChar_digit _
+      · rw [decVal_snoc, h3, digitChar_val, Nat.mod_mod]; omega
+
+theorem digit1_rt {ds r : List Char} (hne : ds ≠ []) (hd : ∀ c ∈ ds, isDecDigit c = true)
+    (hr : hdP (fun c => !isDecDigit c) r = true) : digit1 (ds ++ r) = .ok ds r := by
+  cases ds with
+  | nil => exact absurd rfl hne
+  | cons c cs =>
+    have := takeWhile_append_stop (f := isDecDigit) (a := c :: cs) (r := r) hd hr
+    have hc := hd c (by simp)
+    simp only [List.cons_append] at this
+    simp [digit1, takeWhile1, hc, this.1, this.2]
+
+theorem digits_no_0x {ds r : List Char} (hd : ∀ c ∈ ds, isDecDigit c = true) (hne : ds ≠ []) (hr : Sep r) :
+    tag ['0', 'x'] (ds ++ r) = .err := by
+  cases ds with
+  | nil => exact absurd rfl hne
+  | cons c cs =>
+    by_cases hc : '0' = c
+    · subst hc
+      cases cs with
+      | nil =>
+        cases r with
+        | nil => rfl
+        | cons e r =>
+          have : 'x' ≠ e := by intro h; subst h; simp [Sep, isSepChar] at hr
+          simp [tag, stripPrefix, this]
+      | cons e cs =>
+        have : 'x' ≠ e := by intro h; subst h; have := hd 'x' (by simp); simp [isDecDigit] at this
+        simp [tag, stripPrefix, this]
+    · simp [tag, stripPrefix, hc]
+
+theorem digits_no_minus {ds r : List Char} (hd : ∀ c ∈ ds, isDecDigit c = true) (hne : ds ≠ []) :
+    tag ['-'] (ds ++ r) = .err := by
+  cases ds with
+  | nil => exact absurd rfl hne
+  | cons c cs =>
+    have : '-' ≠ c := by intro h; subst h; have := hd '-' (by simp); simp [isDecDigit] at this
+    simp [tag, stripPrefix, this]
+
+/-- non-negative `IntConstant` -/
+theorem intConstant_nat_rt (d : Nat) {m : Nat} {r : List Char} (hm : (m : Int) ≤ i64Max) (hr : Sep r) :
+    IntConstant.parse (d + 1) (decDigits m ++ r) = .ok (m : Int) r := by
+  obtain ⟨h1, h2, h3⟩ := decDigits_spec m
+  have e1 := digits_no_minus (r := r) h2 h1
+  have e2 := digits_no_0x h2 h1 hr
+  have e3 := digit1_rt h1 h2 hr.noDigit
+  simp [IntConstant.parse, alt, skip, andThen, e1, e2, PR.bind, mapRes, e3, parseI64Dec, h3, hm]
+
+/-- `int_rt` -/
+theorem intConstant_rt (d : Nat) {n : Int} {r : List Char} (hn : intOk n = true) (hr : Sep r) :
+    IntConstant.parse (d + 2) (intText n ++ r) = .ok n r := by
+  simp only [intOk, Bool.and_eq_true, decide_eq_true_eq] at hn
+  unfold intText
+  by_cases hneg : n < 0
+  · have hm : ((-n).toNat : Int) ≤ i64Max := by unfold i64Max at *; omega
+    have h1 := intConstant_nat_rt d hm hr
+    have hv : ¬ ((-n).toNat : Int) = i64Min := by unfold i64Min; omega
+    have hback : -((-n).toNat : Int) = n := by omega
+    have htag : tag ['-'] ('-' :: (decDigits (-n).toNat ++ r)) = .ok ['-'] (decDigits (-n).toNat ++ r) :=
+      tag_append ['-'] _
+    simp only [hneg, if_true, List.cons_append]
+    rw [IntConstant.parse]
+    simp only [alt, skip, andThen, htag, PR.bind, pmapChecked, h1, negI64, hv, if_false, hback]
+  · have hm : (n.toNat : Int) ≤ i64Max := by omega
+    have := intConstant_nat_rt (d + 1) hm hr
+    have hback : (n.toNat : Int) = n := by omega
+    simp only [hneg, if_false]
+    rw [this, hback]
+
+/-- field ids -/
+theorem fieldId_digits {id : Int} (h0 : 0 ≤ id) (h1 : id ≤ i32Max) :
+    parseI32Dec (decDigits id.toNat) = some id := by
+  obtain ⟨_, _, h3⟩ := decDigits_spec id.toNat
+  have : (id.toNat : Int) = id := by omega
+  simp [parseI32Dec, h3, this, h1]
+
 end Pilota.Idl
